@@ -61,7 +61,7 @@ Expanding == {"get_cells", "cells", "get_rows", "traverse", "rows", "get_columns
 Verdict(ev) ==
     (IF Has(ev, "exc") THEN {"exc"} ELSE {})
     \cup (IF ~Has(ev, "exc") /\ ev.got # Expected(ev.pre, ev.g) THEN {"addressed"} ELSE {})
-    \cup (IF ~Has(ev, "exc") /\ ev.g.getter \in Expanding /\ ev.reps # <<>> THEN {"expanded"} ELSE {})
+    \cup (IF ~Has(ev, "exc") /\ (ev.g.getter \in Expanding \/ Has(ev.g, "expand")) /\ ev.reps # <<>> THEN {"expanded"} ELSE {})
     \cup (IF Has(ev, "aliased") /\ ev.aliased # <<>> THEN {"detached"} ELSE {})
     \cup (IF Has(ev, "cross") /\ ev.cross # <<>> THEN {"detached-cross"} ELSE {})
     \cup (IF ev.post # ev.pre THEN {"getter-changed-table"} ELSE {})
